@@ -75,6 +75,7 @@ func runC06(c *Check, a *Analysis) {
 	p := c.P
 	sc := siteCounter{}
 	ruleHeaderFresh(c, a, "R-HEADER-FRESH")
+	ruleSeqMonotone(c, a, "R-SEQ-MONOTONE")
 	ruleCodeThresholds(c, a, "R-CODE-THRESHOLD")
 	ruleReaderExitCause(c, a, "R-READER-EXIT-CAUSE")
 
